@@ -28,6 +28,7 @@ import asyncstdlib.itertools
 from typing_extensions import Self  # In 3.11, import this from `typing`
 
 from mpservice import multiprocessing
+from mpservice._common import StopRequested
 from mpservice._queues import SingleLane
 from mpservice.concurrent.futures import (
     ProcessPoolExecutor,
@@ -177,7 +178,7 @@ class SyncIter(Iterable):
                         return
                     q.put(x)
                 q.put(FINISHED)
-            except Exception as e:
+            except (Exception, StopRequested) as e:
                 q.put(STOPPED)
                 q.put(e)
 
@@ -446,7 +447,7 @@ class AsyncBuffer(AsyncIterable):
                         break
                     q.put(x)  # if `q` is full, will wait here
                 q.put(FINISHED)
-            except Exception as e:
+            except (Exception, StopRequested) as e:
                 q.put(STOPPED)
                 q.put(e)
                 # raise
